@@ -55,7 +55,7 @@ def main(tier, seed):
     # declared instead of inferred types: generated programs know the value sets of their finite variables
     extra = []
     for it in items:
-        if it.get("T") is not None:
+        if it.get("T") is not None and it["id"].startswith("gen-"):
             g = gen.Gen(int(it["origin"].split("=")[1]))
             T, params = g.gen()
             types = dict(g.fvals)
